@@ -87,7 +87,10 @@ fn enable_nil_env_mode_for_stepping_23_or_greater(
     code_generator: &mut PrimaryCodegen,
 ) {
     if let Some(s) = opts.dialect().stepping {
-        if s >= 23 && opts.optimize() {
+        // Only when the left env is still present: a nested compilation (com)
+        // inherits an env that was already reduced to the arguments, and if
+        // the first parameter is () that env looks like an empty left env again.
+        if s >= 23 && opts.optimize() && code_generator.left_env {
             if let Some(whole_env) = empty_left_env(code_generator.env.clone()) {
                 code_generator.left_env = false;
                 code_generator.env = whole_env;
